@@ -32,6 +32,45 @@ def tlc_histories(ctx, maxlen):
     return hs
 
 
+def node_heap_conformance(ctx):
+    """labella.node.Node against the heap model NodeHeap.tla: every maximal history of the model's state graph (a seeded
+    1-in-n sample in the quick tier) and random histories are played on real Node objects; every observer of every node
+    is compared after every call.  No listed property is decided here: a mismatch is specification drift."""
+    import shutil
+    quick = ctx.tier == "quick"
+    ctx.model("NodeHeap", "NegNodeHeap_undisciplined.cfg", workers=2, expect_violation="Undisciplined_PointersAgree",
+              label="negative self-test: createStub on a node that still has a parent leaves the old stub pointing at it")
+    tmp = tempfile.mkdtemp(prefix="vnode_")
+    try:
+        ctx.model("NodeHeap", "MCNodeHeap.cfg", workers=8, heap="4g", dump=[os.path.join(tmp, "n.dump")],
+                  label="node heap: pointer agreement, chains share the datum's position, stubs start at their child (all histories <= 5 calls)")
+        text = open(os.path.join(tmp, "n.dump")).read()
+    finally:
+        shutil.rmtree(tmp, ignore_errors=True)
+    hs = [h for h in core.parse_history_dump(text) if len(h) == 5]
+    stride = 40 if quick else 4
+    leaves = hs[(ctx.seed % stride)::stride]
+    jobs = []
+    per = (len(leaves) + core.NCPU - 1) // core.NCPU
+    for k in range(core.NCPU):
+        jobs.append({"script": "d_node.py", "stdin_obj": {"seed": ctx.seed * 23 + k, "histories": leaves[k * per:(k + 1) * per],
+                                                         "count": (640 if quick else 12800) // core.NCPU}})
+    recs = []
+    for out in core.run_drivers_parallel(jobs):
+        recs += out["records"]
+    drift, st = core.validate_records("NodeTrace", "NodeTrace.cfg", recs, expect="init", per_shard=300)
+    ctx.states += st["distinct"]
+    ctx.transitions += st["generated"]
+    bad = {i for i, _ in drift}
+    ctx.extra["node_heap_conformance"] = {"histories_replayed_on_Node_objects": len(recs), "from_TLC_state_graph": len(leaves),
+                                          "calls": sum(len(r["ev"]) for r in recs),
+                                          "explained_by_NodeHeap.tla": len(recs) - len(bad), "spec_drift": len(bad)}
+    if drift:
+        i, inv = drift[0]
+        ctx.notes.append("spec drift: %d Node histories are not explained by the heap model (first: %s: %s)" % (
+            len(bad), inv, " ".join("%s%s:%s" % (e["a"], e["n"], e["x"]) for e in recs[i]["ev"])))
+
+
 def act(e):
     return e["a"] + (":" + e["x"] if e["x"] else "")
 
@@ -82,6 +121,7 @@ def run(ctx):
     ctx.nontrivial += len(seen)
     ctx.sample({"history": [act(e) for e in recs[0]["ev"]], "last": recs[0]["ev"][-1]})
     ctx.sample({"history": [act(e) for e in recs[-1]["ev"]], "sets": recs[-1]["sets"]})
+    node_heap_conformance(ctx)
 
 
 def replay(path):
